@@ -1,13 +1,32 @@
-(* jaxley/utils/cell_utils.py:_split_branch_equally (the max_branch_len splitting of the SWC reader, C16): a
-   section (list of traced points, the first one being the point it shares with its parent) is cut into n pieces by
-   NUMBER of points: m = len // n; first piece = the first m points, piece i = points i*m-1 .. (i+1)*m-1, the last
-   piece = everything from (n-1)*m-1.  Executable, axiom-free; compared exactly with the code on random sections. *)
+(* jaxley/utils/cell_utils.py:_split_branch_equally and its use in _split_long_branches (the max_branch_len splitting
+   of the SWC reader, C16), after the repairs of F25 / F63: a section of s = len - 1 traced segments is cut into
+   k = max 1 (min n s) pieces at the points  c_i = i*s / k  (integer division): piece i = points c_i .. c_{i+1}.
+   A section that starts at a single-point soma keeps its first (zero-length) segment with the first piece: the points
+   after the soma are cut, and the soma point is put in front of the first piece (`split_from_soma`).
+   `split_equally_old` is the splitting before the repair (first piece = the first len/n points).
+   Executable, axiom-free; compared exactly with the code on random sections. *)
 From Coq Require Import List Arith.
 Import ListNotations.
 
 Definition slice {A} (l : list A) (a b : nat) : list A := firstn (b - a) (skipn a l).
 
+Definition npieces (len n : nat) : nat := Nat.max 1 (Nat.min n (len - 1)).
+Definition cut (len n i : nat) : nat := i * (len - 1) / npieces len n.
+
 Definition split_equally {A} (branch : list A) (n : nat) : list (list A) :=
+  let len := length branch in
+  map (fun i => slice branch (cut len n i) (cut len n (i + 1) + 1)) (seq 0 (npieces len n)).
+
+Definition split_from_soma {A} (branch : list A) (n : nat) : list (list A) :=
+  match branch with
+  | soma :: rest => match split_equally rest n with
+                    | first :: others => (soma :: first) :: others
+                    | [] => [branch]
+                    end
+  | [] => [branch]
+  end.
+
+Definition split_equally_old {A} (branch : list A) (n : nat) : list (list A) :=
   let m := length branch / n in
   slice branch 0 m
   :: map (fun i => slice branch (i * m - 1) ((i + 1) * m)) (seq 1 (n - 2))
